@@ -282,5 +282,19 @@ CHECKS["C18"] = dict(
           dict(name="backlog", test="^TestOrderUnderBacklog$", kind="plain", quick=dict(n=2, procs=1, timeout=300), thorough=dict(n=20, procs=1, timeout=900))],
 )
 
+CHECKS["C14"] = dict(
+    level="exploration",
+    technique="stateful property testing (rapid) with restart fault points: generated ban / unban / use / gossip-delivery / restart histories over two real brokers "
+              "sharing a captured gossip link; oracle: per-broker, per-key boolean model with last-writer-wins by acknowledgement order",
+    level_text="Histories of <=30 operations on two brokers and two keys: keyban requests (ban/unban with the master key) at either broker, uses of the key "
+               "(publish or subscribe) at either broker interleaved everywhere, delivery of everything one broker has broadcast to the other (the other may or "
+               "may not have looked the key up before), and restarts of a broker on its state directory after any prefix. After an acknowledged ban every use on "
+               "that broker is refused, after an acknowledged unban accepted, a restart preserves the state, the other broker follows once the gossip is merged.",
+    level_note="Trusted: paho codec, a capturing mesh.Gossip stub (payload bytes taken at broadcast time, merged through the real OnGossipBroadcast), the real "
+               "wall clock as the LWW clock (operations are far more than a nanosecond apart). Restart = clean Close + NewService; process kill is not covered here.",
+    rule="rapid-generated histories; non-trivial = a use of a key that has been toggled at least twice, or a restart after a toggle; distinct = distinct case value.",
+    legs=[dict(name="ban", test="^TestBan$", quick=dict(n=120, procs=4, batch=30, timeout=400), thorough=dict(n=12000, procs=14, batch=60, timeout=1200))],
+)
+
 for _k in CHECKS:
     NOT_APPLICABLE.pop(_k, None)
